@@ -42,6 +42,16 @@ ParseFirst(buf) == ParseFrom(buf, 1, <<>>, <<>>)
 
 (* --------------------------- enhanced status -------------------------- *)
 (* ESC-looking prefix  [245] . d{1,3} . d{1,3} ws+  (message_esc_pattern) *)
+\* white space as the library's pattern sees it: message_esc_pattern is a str pattern, its \s is Unicode white space - the ASCII ones,
+\* FS GS RS US, and (in UTF-8) U+0085, U+00A0, U+1680, U+2000..U+200A, U+2028, U+2029, U+202F, U+205F, U+3000
+StrWsAt(s, i) ==
+  \/ IsWs(s[i])
+  \/ s[i] \in 28..31
+  \/ (i + 1 <= Len(s) /\ s[i] = 194 /\ s[i + 1] \in {133, 160})
+  \/ (i + 2 <= Len(s) /\ s[i] = 226 /\ s[i + 1] = 128 /\ s[i + 2] \in ((128..138) \cup {168, 169, 175}))
+  \/ (i + 2 <= Len(s) /\ s[i] = 226 /\ s[i + 1] = 129 /\ s[i + 2] = 159)
+  \/ (i + 2 <= Len(s) /\ s[i] = 227 /\ s[i + 1] = 128 /\ s[i + 2] = 128)
+  \/ (i + 2 <= Len(s) /\ s[i] = 225 /\ s[i + 1] = 154 /\ s[i + 2] = 128)
 RECURSIVE DigitsAt(_, _, _)
 DigitsAt(s, i, n) == IF n < 3 /\ i <= Len(s) /\ IsDigit(s[i]) THEN DigitsAt(s, i + 1, n + 1) ELSE n
 EscLen(s) ==   \* length of the ESC token at the start of s (without the white space), 0 if none
@@ -49,7 +59,7 @@ EscLen(s) ==   \* length of the ESC token at the start of s (without the white s
   THEN LET a == DigitsAt(s, 3, 0) IN
        IF a >= 1 /\ 3 + a <= Len(s) /\ s[3 + a] = DOT
        THEN LET b == DigitsAt(s, 4 + a, 0) IN
-            IF b >= 1 /\ 4 + a + b <= Len(s) /\ IsWs(s[4 + a + b]) THEN 3 + a + b ELSE 0
+            IF b >= 1 /\ 4 + a + b <= Len(s) /\ StrWsAt(s, 4 + a + b) THEN 3 + a + b ELSE 0
        ELSE 0
   ELSE 0
 LooksLikeEsc(s) == EscLen(s) > 0
